@@ -143,6 +143,7 @@ theorem unsafe_two_producers_overlap_witness :
 end Ro.C02
 
 #print axioms Ro.KernelTie.progs_are_the_source
+#print axioms Ro.KernelTie.subscriber_ctor_is_the_source
 #print axioms Ro.KernelTie.modes_are_the_source
 #print axioms Ro.KernelTie.mutexes_are_the_source
 #print axioms Ro.C02.kernel_callbacks_never_overlap
